@@ -429,7 +429,9 @@ func exploreIsolated(r *Run, s HarnessSpec, id string) (enum.Stats, []enum.Viola
 				mu.Unlock()
 				skips = append(skips, pref)
 			}
-			results[sh] = res{err: fmt.Errorf("shard %d: too many worker deaths", sh)}
+			// the worker died a dozen times in this shard: every death is reported as a violation of its case; the rest of
+			// the shard stays unexplored (the coverage statement says so) - that is a verdict, not a tool error
+			results[sh] = res{out: workerOut{Stats: enum.Stats{Harness: s.Name, Bound: s.Bound, Exhaustive: false, CapHit: "worker died 12 times in one shard; the rest of that shard was not explored"}}}
 		}(sh)
 	}
 	wg.Wait()
